@@ -57,12 +57,17 @@ Inductive levent :=
 | EProc (id : nat) (panicked : bool)      (* the processor took row id *)
 | EEnq (id : nat)                         (* a producer put row id into the data channel *)
 | EDropIn (id : nat)                      (* a producer gave up on row id *)
-(* the next three are only produced by the Go harness (never by the model) *)
+(* the next ones are only produced by the Go harness (never by the model) *)
 | ETimeout                                (* some call of the scenario did not return within the harness's patience *)
 | EGoroutines (base final : nat)          (* goroutine count before New / after the last Stop returned and the callers were joined *)
 | EStopOver (t : nat)                     (* Stop call t has been running for longer than its grace period plus the harness's margin:
                                              it waits for something other than the grace-bounded join (in the model every own step
                                              of a Stop caller is enabled, the join through its grace branch: Props C18_stop_never_waits) *)
+| EStopAgainOver (t : nat)                (* Stop call t, made while another Stop call was in progress or after one had returned (a second,
+                                             concurrent, repeated or re-entrant Stop: it loses the CAS on `stopped`), had not returned
+                                             within the harness's bound: a Stop that is not the first one is a no-op (in the model the
+                                             loser returns with three own steps that are enabled in every shared
+                                             state and change nothing: Props C18_stop_idempotent, C18_stop_returns_alone) *)
 | EEmitOver (t : nat).                    (* Emit call t, parked on a full data channel when Stop was called, was still inside Emit when
                                              the harness's bound after that Stop call had passed, although nothing drained the channel:
                                              it was not released by the shutdown signal (in the model every own step of a producer is
